@@ -258,7 +258,8 @@ func (e *Executor) RunTask(ctx context.Context, call *Call) error {
 }
 
 func (e *Executor) mkdir(t *ast.Task) error {
-	if t.Dir == "" {
+	// A dry run must not touch the file system
+	if t.Dir == "" || e.Dry {
 		return nil
 	}
 
